@@ -369,6 +369,51 @@ theorem readd_live_counterexample :
   revert this
   decide
 
+/-! ### rejected, then added again: the configured list survives failed and successful `add_config` calls -/
+
+/-- The exact effect of an `add_config` that fails part-way: the default-typed names before the first one the
+table lacks (`pre`) have been converted (appended to `variables`, removed from `default_fetch_as`), the
+missing name and everything after it is still waiting, the configuration is marked invalid, KeyError is
+raised, nothing is sent and `log_blocks` is unchanged.  (Any position of the missing name: `pre` is arbitrary.) -/
+theorem add_config_partial_failure (st : St) (h : Nat) (c : Conf) (toc : Toc) (pre : List Nat) (n : Nat) (post : List Nat)
+    (hc : st.conf? h = some c) (hlink : st.link = true) (htoc : st.toc = some toc) (hwf : TocWF toc)
+    (hd : c.defaults = pre ++ n :: post) (hpre : ∀ m ∈ pre, toc.has m) (hn : ¬ toc.has n) :
+    addConfig st h = some
+      { st := st.setConf h { c with variables := c.variables ++ resolvedVars toc pre, defaults := n :: post, valid := false },
+        outs := [], err := some .keyError } := by
+  simp only [addConfig, addConfigWith, hc, hlink, htoc, Bool.not_true, Bool.false_eq_true, if_false, hd,
+    resolve_partial toc hwf pre n post c hd hpre hn]
+
+/-- Over ALL histories of failed and successful `add_config` calls against any sequence of tables (reconnects,
+re-adds directly or through `SyncLogger.connect`, acknowledgements, data, …) that do not call
+`add_variable`/`add_memory` on the configuration: the configured list — names of the typed variables followed
+by the names still waiting for a type — never changes (nothing is duplicated, dropped or reordered), and the
+variables that already have a type stay exactly as they are (new ones are only appended).
+Hypothesis on the environment: no table element has an empty type name (true of every `LogTocElement`). -/
+theorem configured_list_stable (st : St) (k : Nat) (c : Conf) (ops : List Op) (hk : st.conf? k = some c)
+    (h0 : TocNE st.toc) (hset : ∀ t, Op.setToc t ∈ ops → TocNE (some t))
+    (hno : ∀ op ∈ ops, op.editsVars k = false) :
+    ∃ c', (run st ops).1.conf? k = some c' ∧
+      c'.variables.map (·.name) ++ c'.defaults = c.variables.map (·.name) ++ c.defaults ∧
+      c.variables <+: c'.variables :=
+  run_cfg st k c ops hk h0 hset hno
+
+/-- … and whenever an `add_config` finally accepts (in whatever state `c` the earlier failed attempts left the
+configuration), the variable list is then exactly the configured list, once each and in order, and nothing
+is left to resolve.  With `configured_list_stable`: the variable list after any history of failed and
+successful `add_config` calls is the list the user configured. -/
+theorem accepted_variables_are_configured_list (st : St) (h : Nat) (c : Conf) (toc : Toc) (ms : Int) (r : Res)
+    (hc : st.conf? h = some c) (hlink : st.link = true) (htoc : st.toc = some toc)
+    (hwf : TocWF toc) (hvw : VarsWF c.variables) (hp : c.period = periodOf ms)
+    (hadd : addConfig st h = some r) (hok : r.err = none) :
+    ∃ c', r.st.conf? h = some c' ∧ c'.variables.map (·.name) = c.variables.map (·.name) ++ c.defaults ∧
+      c'.defaults = [] ∧ c.variables <+: c'.variables := by
+  obtain ⟨r', hr', _, hiff, hacc, _⟩ := accept_iff st h c toc ms hc hlink htoc hwf hvw hp
+  rw [hadd] at hr'; cases hr'
+  obtain ⟨hconf, _, _⟩ := hacc hok
+  have hall := (hiff.mp hok).1
+  exact ⟨_, hconf, by simp [resolvedVars_names toc hwf c.defaults hall], rfl, List.prefix_append _ _⟩
+
 /-! ## Clause 6: SyncLogger yields each decoded sample once, in order, ending at disconnect -/
 
 /-- Over all histories and for every SyncLogger `s`: what `__next__` took from the queue during the history
@@ -458,5 +503,17 @@ example :
     ((run exSt2 ops).1.conf? 0).map (·.valid) = some false ∧
     ((run exSt2 ops).2.filter (fun o => match o with | .tx _ _ => true | _ => false)).length = 3 := by
   decide
+
+/-- rejected on a table that lacks the second default-typed name, reconnect to a complete table with other
+idents, re-add: the variables are the configured ones, once each, in order -/
+def exRejectReadd : List Op := [.addConfig 0, .linkLost, .linkUp, .refresh 5, .rx 1 [5, 0, 0],
+  .setToc [⟨2, 9, "FP16"⟩, ⟨1, 8, "float"⟩, ⟨0, 7, "uint8_t"⟩], .addConfig 0]
+def exConf3 : Conf := { period := 10, defaults := [0, 1, 2] }
+def exSt3 : St := { confs := [exConf3], link := true, toc := some [⟨0, 0, "uint8_t"⟩, ⟨2, 1, "FP16"⟩], useV2 := true }
+example : ((run exSt3 [.addConfig 0]).1.conf? 0).map (fun c => (c.variables.map (·.name), c.defaults, c.valid)) =
+    some ([0], [1, 2], false) := by decide
+example : ((run exSt3 exRejectReadd).1.conf? 0).map (fun c => (c.variables.map (·.name), c.defaults, c.valid)) =
+    some ([0, 1, 2], [], true) := by decide
+example : TocNE exSt3.toc := by show ∀ e ∈ _, _; decide
 
 end CfVerif.C05
